@@ -52,3 +52,5 @@ loop(f"{FM}:compute_branch_distance_fitness_is_covered", 0, invariant=[
     "all(side_covered(trace.true_distances, exclude_true, p) and "
     "side_covered(trace.false_distances, exclude_false, p) for p in _done)",
 ])
+
+from . import c10_goals  # noqa: E402,F401  (goal-level contracts)
